@@ -167,7 +167,7 @@ def run(tier):
     # the same geometries on random references (random length / cut position / read length / neighbouring motifs)
     import random
     rng = random.Random(c.seed)
-    sub = scns if not q else rng.sample(scns, min(len(scns), 2500))
+    sub = scns if not q else rng.sample(scns, min(len(scns), 4000))
     sp2 = os.path.join(vlib.scratch(), 'scenarios_random.json')
     with open(sp2, 'w') as f:
         json.dump(sub, f)
